@@ -52,7 +52,7 @@ def PRECHECK():
 
 EXPLANATION = "history-reached pre-state + one symbolic step; overlay observers vs dictionary model; fall-back snapshot frame condition"
 
-OPS = ["store", "store_metadata", "remove", "makedir", "removedir_recursive", "removedir_empty", "reads"]
+OPS = ["store", "store_metadata", "remove", "makedir", "removedir_recursive", "removedir_empty", "reads", "openbin_w"]
 PATTERN = b"NEW"
 
 
@@ -202,7 +202,10 @@ def scenarios(op, R, W):
                     continue
                 for k in (U if op != "reads" else U[:1]):
                     mf = dict(m)
-                    if op != "reads" and not model_apply(mf, op, k, (b"", "new", 0) if op in ("store", "store_metadata") else None):
+                    if op == "openbin_w":
+                        if ISDIR[k]:
+                            continue
+                    elif op != "reads" and not model_apply(mf, op, k, (b"", "new", 0) if op in ("store", "store_metadata") else None):
                         continue
                     out.append((fi, plan, k, m))
     _SCEN[key] = out
@@ -225,7 +228,7 @@ def ob_overlay(c: int, mv: int) -> bool:
     pres = VALID[fi]
     final_val = (PATTERN, "new", mv) if op in ("store", "store_metadata") else None
     mfinal = dict(m)
-    if op != "reads":
+    if op not in ("reads", "openbin_w"):
         model_apply(mfinal, op, k, final_val)
     roles = part("roles")
     with nt(), quiet():
@@ -254,11 +257,26 @@ def ob_overlay(c: int, mv: int) -> bool:
             ok = conforms(o, mfinal)
         else:
             with nt():
-                if op != "reads":
+                if op == "openbin_w":
+                    # a write handle obtained through the overlay: whether a store supports it is not constrained, but it must never
+                    # reach the fall-back, and every OTHER key keeps reading as before
+                    try:
+                        f = o.openbin(k, "w")
+                        f.write(b"W")
+                        f.close()
+                    except Exception:
+                        pass
+                    mfinal.pop(k, None)
+                    ok = all(bool(o.contains(x)) == (x in mfinal) for x in U if x != k and not k.startswith(x + "/"))
+                    for x in U:
+                        if x != k and x in mfinal and mfinal[x] != "dir":
+                            ok = ok and o.get_bytes(x) == mfinal[x][0]
+                elif op != "reads":
                     real_apply(o, op, k, final_val)
+                    ok = conforms(o, mfinal)
                 else:
                     conforms(o, mfinal)
-                ok = conforms(o, mfinal)
+                    ok = conforms(o, mfinal)
     with nt(), quiet():
         ok = ok and sl.observe(fallback, keys=U) == before
         if fsnap is not None:
@@ -271,8 +289,10 @@ def obligations(tier):
     obs = []
     role_sets = [("memory", "memory")] if q else [("memory", "memory"), ("file", "memory"), ("memory", "file"), ("file", "file")]
     R, W = (1, 1) if q else (2, 2)
-    for roles in role_sets:
+    for roles in role_sets + ([("memory", "file")] if q else []):
         for op in range(len(OPS)):
+            if q and roles == ("memory", "file") and OPS[op] != "openbin_w":
+                continue          # quick tier: a directory store as fall-back only where its write handles matter
             n = len(scenarios(OPS[op], R, W))
             chunk = (400 if q else 1500) if op > 1 else (160 if q else 500)
             for lo in range(0, n, chunk):
